@@ -378,3 +378,162 @@ pub proof fn lemma_remove_global(w: World, wr: World, wr2: World, id: u32, last:
         assert(cur_owner(wr, lt).is_some() <==> gidx(w, lt).is_some());
     }
 }
+
+// ---- the base operations never touch the lists; the list maintenance never touches the base view ----
+pub proof fn lemma_base_op_enum_frame(w: World, op: NOp)
+    requires op_guard(w, op),
+    ensures enum_same(w, op_post(w, op)), tsupply(op_post(w, op)) == tsupply(w),
+{
+    broadcast use sdk_store, enum_store;
+    let w2 = op_post(w, op);
+    if is_update(op) {
+        lemma_op_shape(w, op);
+        let wp = op_pre(w, op);
+        let id = op_token(w, op).unwrap();
+        let wu = update_post(wp, op_from(op), op_to(op), id);
+        assert(w2.persistent == wu.persistent && w2.instance == wu.instance);
+        assert(enum_same(wp, wu) && tsupply(wu) == tsupply(wp));
+        assert(enum_same(w, wp) && tsupply(wp) == tsupply(w));
+        assert forall|o: Address, i: u32| #[trigger] otok(w2, o, i) == otok(w, o, i) by { assert(otok(w2, o, i) == otok(wu, o, i)); assert(otok(wu, o, i) == otok(wp, o, i)); }
+        assert forall|i: u32| #[trigger] oidx(w2, i) == oidx(w, i) by { assert(oidx(w2, i) == oidx(wu, i)); assert(oidx(wu, i) == oidx(wp, i)); }
+        assert forall|i: u32| #[trigger] gtok(w2, i) == gtok(w, i) by { assert(gtok(w2, i) == gtok(wu, i)); assert(gtok(wu, i) == gtok(wp, i)); }
+        assert forall|i: u32| #[trigger] gidx(w2, i) == gidx(w, i) by { assert(gidx(w2, i) == gidx(wu, i)); assert(gidx(wu, i) == gidx(wp, i)); }
+    } else {
+        assert(w2.persistent == w.persistent && w2.instance == w.instance) by {
+            match op {
+                NOp::Approve { approver, approved, id, live } => {}
+                NOp::ApproveForAll { owner, operator, live } => {}
+                _ => {}
+            }
+        }
+    }
+}
+
+pub open spec fn eop_id(w: World, op: EOp) -> u32 { match op_token(w, base_op(op)) { Some(id) => id, None => 0 } }
+
+/// `w1` = the state a base operation left: lists as in `w`, token `id` now owned by `to` (was `from`)
+pub open spec fn base_moved(w: World, w1: World, from: Option<Address>, to: Option<Address>, id: u32) -> bool {
+    &&& enum_same(w, w1) && tsupply(w1) == tsupply(w)
+    &&& cur_owner(w, id) == from
+    &&& forall|id2: u32| #[trigger] cur_owner(w1, id2) == (if id2 == id { to } else { cur_owner(w, id2) })
+    &&& forall|a: Address| (#[trigger] bal(w1, a)) as int == bal(w, a) - ind(from == Some(a)) + ind(to == Some(a))
+    &&& from.is_some() ==> bal(w, from.unwrap()) >= 1
+}
+
+pub proof fn lemma_part_mint(w: World, w1: World, o: Address, id: u32)
+    requires inv_enum(w), base_moved(w, w1, None, Some(o), id), add_enums_guard(w1, o, id),
+    ensures inv_enum(add_enums_post(w1, o, id)), base_same(w1, add_enums_post(w1, o, id)),
+        tsupply(add_enums_post(w1, o, id)) == tsupply(w) + 1,
+{
+    let ts = tsupply(w);
+    lemma_ol_frame(w, w, w1, w);
+    lemma_gl_frame(w, ts as int, w, w1, w);
+    let wa = add_owner_post(w1, o, id);
+    lemma_add_owner_pointwise(w1, o, id);
+    lemma_add_owner(w1, w, w1, o, id);
+    let wb = inc_supply_post(wa);
+    lemma_supply_pointwise(wa);
+    let wc = add_global_post(wb, id, tsupply(wa));
+    assert(add_enums_post(w1, o, id) == wc);
+    lemma_add_global_pointwise(wb, id, ts);
+    lemma_gl_frame(w1, ts as int, w, wb, w);
+    lemma_add_global(wb, w, w1, id, ts);
+    lemma_ol_frame(wa, w1, wc, wc);
+    lemma_gl_frame(wc, ts + 1, w1, wc, wc);
+    assert(tsupply(wc) == ts + 1);
+}
+
+pub proof fn lemma_part_burn(w: World, w1: World, o: Address, id: u32)
+    requires inv_enum(w), base_moved(w, w1, Some(o), None, id), tsupply(w) >= 1,
+    ensures inv_enum(remove_enums_post(w1, o, id)), base_same(w1, remove_enums_post(w1, o, id)),
+        tsupply(remove_enums_post(w1, o, id)) == tsupply(w) - 1,
+        remove_enums_guard(w1, o, id),
+{
+    let ts = tsupply(w);
+    lemma_ol_frame(w, w, w1, w);
+    lemma_gl_frame(w, ts as int, w, w1, w);
+    let wa = remove_owner_post(w1, o, id);
+    lemma_remove_owner(w1, w, w1, o, id);
+    lemma_remove_owner_pointwise(w1, o, id);
+    let wb = dec_supply_post(wa);
+    lemma_supply_pointwise(wa);
+    assert(tsupply(wa) == ts);
+    let last = (ts - 1) as u32;
+    let wc = remove_global_post(wb, id, last);
+    assert(remove_enums_post(w1, o, id) == wc);
+    lemma_gl_frame(w1, ts as int, w, wb, w);
+    lemma_remove_global(wb, w, w1, id, last);
+    lemma_remove_global_pointwise(wb, id, last);
+    lemma_ol_frame(wa, w1, wc, wc);
+    lemma_gl_frame(wc, last as int, w1, wc, wc);
+    assert(tsupply(wc) == ts - 1);
+}
+
+pub proof fn lemma_part_transfer(w: World, w1: World, f: Address, t: Address, id: u32)
+    requires inv_enum(w), base_moved(w, w1, Some(f), Some(t), id), f != t,
+    ensures inv_enum(add_owner_post(remove_owner_post(w1, f, id), t, id)),
+        base_same(w1, add_owner_post(remove_owner_post(w1, f, id), t, id)),
+        tsupply(add_owner_post(remove_owner_post(w1, f, id), t, id)) == tsupply(w),
+        remove_owner_guard(w1, f, id), add_owner_guard(remove_owner_post(w1, f, id), t),
+{
+    let ts = tsupply(w);
+    lemma_ol_frame(w, w, w1, w);
+    lemma_gl_frame(w, ts as int, w, w1, w);
+    // reference view between the two list updates: the token is in nobody's list
+    let wrb = pdel(dec_bal_post(w, f, 1), k_owner(id));
+    assert(forall|id2: u32| #[trigger] cur_owner(wrb, id2) == (if id2 == id { None } else { cur_owner(w, id2) })) by {
+        broadcast use sdk_store;
+    }
+    assert(forall|a: Address| (#[trigger] bal(wrb, a)) as int == bal(w, a) - ind(a == f)) by {
+        broadcast use sdk_store;
+    }
+    let wa = remove_owner_post(w1, f, id);
+    lemma_remove_owner(w1, w, wrb, f, id);
+    lemma_remove_owner_pointwise(w1, f, id);
+    let wb = add_owner_post(wa, t, id);
+    lemma_add_owner(wa, wrb, w1, t, id);
+    lemma_add_owner_pointwise(wa, t, id);
+    lemma_ol_frame(wb, w1, wb, wb);
+    lemma_gl_frame(w1, ts as int, w, wb, wb);
+}
+
+pub proof fn lemma_part_none(w: World, w1: World)
+    requires inv_enum(w), enum_same(w, w1), tsupply(w1) == tsupply(w),
+        forall|id2: u32| #[trigger] cur_owner(w1, id2) == cur_owner(w, id2),
+        forall|a: Address| #[trigger] bal(w1, a) == bal(w, a),
+    ensures inv_enum(w1),
+{
+    lemma_ol_frame(w, w, w1, w1);
+    lemma_gl_frame(w, tsupply(w) as int, w, w1, w1);
+}
+
+/// C10 (enumerable) for one entry point: the lists keep mirroring ownership; the base view is
+/// exactly the one the wrapped base operation produced (so every base C10/C11 lemma carries over)
+pub proof fn lemma_eop_inv(w: World, op: EOp)
+    requires inv_enum(w), eop_guard(w, op), op_assume(w, base_op(op)),
+    ensures
+        //@@ C10:lemma.enum_entry_points_keep_lists
+        inv_enum(eop_post(w, op)),
+        //@@ C10+C11:lemma.enum_entry_points_keep_base_view
+        base_same(op_post(w, base_op(op)), eop_post(w, op)),
+        //@@ C10:lemma.enum_total_supply_counts_mints_minus_burns
+        tsupply(eop_post(w, op)) as int == tsupply(w) + ind(is_mint(base_op(op))) - ind(is_move(base_op(op)) && op_to(base_op(op)).is_none()),
+{
+    let nop = base_op(op);
+    let id = eop_id(w, op);
+    let w1 = op_post(w, nop);
+    lemma_op_view(w, nop);
+    lemma_base_op_enum_frame(w, nop);
+    if is_mint(nop) {
+        assert(op_token(w, nop) == Some(id));
+        lemma_part_mint(w, w1, op_to(nop).unwrap(), id);
+    } else if is_move(nop) && op_to(nop).is_none() {
+        assert(op_token(w, nop) == Some(id));
+        lemma_part_burn(w, w1, op_from(nop).unwrap(), id);
+    } else if is_move(nop) && op_from(nop) != op_to(nop) {
+        assert(op_token(w, nop) == Some(id));
+        lemma_part_transfer(w, w1, op_from(nop).unwrap(), op_to(nop).unwrap(), id);
+    } else {
+        lemma_part_none(w, w1);
+    }
+}
